@@ -404,7 +404,7 @@ Definition maxprec (kd : dkind) : Z := match kd with D64 => 18 | D128 => 38 end.
                       precision - scale > 127);  false: in i16, `i16::clamp(int_digits + scale, 1, MAX_PRECISION)`
      u64_prec  DecimalTypeMeta::new_for_datatype_id(UInt64).precision: 19 (one digit short) or 20
      wide128   false: the implicit casts to Decimal128 all score 140 and UInt64 -> Decimal64 is implicit (the table above);
-               true: Int64 / UInt64 / Decimal64 -> Decimal128 score 183 (> Float64 181) and UInt64 -> Decimal64 is explicit:
+               true: Int64 / UInt64 -> Decimal128 score 180, Decimal64 -> Decimal128 183 (180 + 183 > 2 * 181 Float64) and UInt64 -> Decimal64 is explicit:
                      Int64 / UInt64 ~ Decimal64 are compared as Decimal128 *)
 Record cparams := { bind_i8 : bool; u64_prec : Z; wide128 : bool }.
 
